@@ -109,6 +109,23 @@ func c12Build(in c12Input) ([]mockq.Rec, refmodel.Expr) {
 		return data, &refmodel.Bin{Op: in.Op, L: &refmodel.Vec{V: in.S}, R: &refmodel.Lit{V: 2}, Bool: in.Bool}
 	case "lv":
 		return data, &refmodel.Bin{Op: in.Op, L: &refmodel.Lit{V: 2}, R: &refmodel.Vec{V: in.S}, Bool: in.Bool}
+	case "emptylab": // a label present with an empty value (on the series with a = 2): one side groups by naming it, the other by not removing it
+		for i := range data {
+			for _, kv := range data[i].Labels {
+				if kv.K == "a" && kv.V == "2" {
+					data[i].Labels = append(append([]mockq.KV(nil), data[i].Labels...), mockq.KV{K: "e", V: ""})
+				}
+			}
+		}
+		mk := func(side string, gr *refmodel.Grouping) refmodel.Expr {
+			return &refmodel.VecAgg{Op: "sum", Grouping: gr, X: &refmodel.RangeAgg{Op: "count_over_time", Sel: []refmodel.Matcher{{Label: "side", Op: "=", Value: side}}, RangeNS: 10 * sec}}
+		}
+		by := &refmodel.Grouping{Labels: []string{"a", "e"}}
+		wo := &refmodel.Grouping{Without: true, Labels: []string{"side", "b"}}
+		if int(in.S)%2 == 0 {
+			return data, &refmodel.Bin{Op: in.Op, L: mk("L", by), R: mk("R", wo)}
+		}
+		return data, &refmodel.Bin{Op: in.Op, L: mk("L", wo), R: mk("R", by)}
 	case "setset": // both operands are set operations themselves (each may come out empty, or as one of its own operands)
 		inner := [][2]string{{"or", "or"}, {"or", "unless"}, {"unless", "or"}, {"and", "or"}, {"or", "and"}}[int(in.S)%5]
 		lo := &refmodel.Bin{Op: inner[0], L: l, R: &refmodel.Vec{V: 0}}
@@ -374,6 +391,11 @@ func c12Run(r *vkit.Run) {
 				for _, op := range all {
 					for k := 0; k < 10; k++ {
 						c12Check(r, c12Input{L: l, R: rr, Op: op, Kind: "setset", S: float64(k), Range: rg})
+					}
+				}
+				for _, op := range all {
+					for k := 0; k < 2; k++ {
+						c12Check(r, c12Input{L: l, R: rr, Op: op, Kind: "emptylab", S: float64(k), Range: rg})
 					}
 				}
 				// operands in one, two and three redundant pairs of parentheses
